@@ -1263,6 +1263,149 @@ func (g *c04Gen) unsortedCase(kind string) *c04Case {
 
 // ---------------------------------------------------------------------------
 
+// ---------------------------------------------------------------------------
+// real chunk layouts: the records are written with bam.Writer, read back with bam.Reader, and the
+// LastChunk values of the reader are what the index is built from.  End-to-end oracle: iterating
+// bam.Iterator over the chunks returned for a query yields every overlapping record.
+
+func (g *c04Gen) realBamCase(c *ctx, d *Driver, impl *[]string) {
+	r := c.res
+	cs := g.sortedCase("bai", false)
+	// unplaced records go to the end (coordinate-sorted BAM)
+	var placed, unplaced []c04Rec
+	for _, rec := range cs.Recs {
+		if rec.Placed {
+			placed = append(placed, rec)
+		} else {
+			unplaced = append(unplaced, rec)
+		}
+	}
+	cs.Recs = append(placed, unplaced...)
+	bi := newBai()
+	var refs []*sam.Reference
+	for i := 0; i < 10; i++ {
+		ref, _ := sam.NewReference(fmt.Sprintf("ref%d", i), "", "", 1<<30, nil, nil)
+		refs = append(refs, ref)
+	}
+	hdr, err := sam.NewHeader(nil, refs)
+	if err != nil {
+		r.note("real bam: %v", err)
+		return
+	}
+	bi.refs = refs
+	var buf bytes.Buffer
+	var werr error
+	o := guardTimeout(20*time.Second, func() {
+		bw, err := bam.NewWriter(&buf, hdr, 1)
+		if err != nil {
+			werr = err
+			return
+		}
+		for i, rec := range cs.Recs {
+			sr := bi.samRecord(rec)
+			sr.Name = fmt.Sprintf("r%d", i)
+			n := g.rnd.pick([]int{0, 10, 100, 100, 3000, 30000})
+			seq := make([]byte, n)
+			for k := range seq {
+				seq[k] = "ACGT"[g.rnd.intn(4)]
+			}
+			sr.Seq = sam.NewSeq(seq)
+			if err := bw.Write(sr); err != nil {
+				werr = err
+				return
+			}
+		}
+		werr = bw.Close()
+	})
+	if o.timedOut || o.panicked || werr != nil {
+		r.note("real bam: writing failed (%v %v %v); case skipped", o.timedOut, o.panicVal, werr)
+		return
+	}
+	data := buf.Bytes()
+	br, err := bam.NewReader(bytes.NewReader(data), 1)
+	if err != nil {
+		r.note("real bam: %v", err)
+		return
+	}
+	blocks := map[int64]bool{}
+	for i := range cs.Recs {
+		if _, err := br.Read(); err != nil {
+			r.note("real bam: read back record %d: %v", i, err)
+			return
+		}
+		ch := br.LastChunk()
+		cs.Recs[i].CB, cs.Recs[i].CE = vo(ch.Begin), vo(ch.End)
+		blocks[ch.Begin.File] = true
+		if (i > 0 && !(cs.Recs[i-1].CE <= cs.Recs[i].CB)) || !(cs.Recs[i].CB < cs.Recs[i].CE) {
+			r.fail("bai.real.chunks-not-monotone", fmt.Sprintf("LastChunk of record %d is not behind that of record %d", i, i-1), cs)
+			return
+		}
+	}
+	br.Close()
+	switch n := len(blocks); {
+	case n <= 1:
+		r.hist("real.blocks1")
+	case n <= 3:
+		r.hist("real.blocks2-3")
+	default:
+		r.hist("real.blocks>3")
+	}
+	// the ordinary machinery (oracle + model) on the real layout
+	cs.runCase(c, d, impl)
+	c04Count(r, cs)
+	// end to end through bam.Iterator
+	run := cs.build(newResult("C04", "x", 0), false)
+	if run.panicked {
+		return
+	}
+	br2, err := bam.NewReader(bytes.NewReader(data), 1)
+	if err != nil {
+		return
+	}
+	defer br2.Close()
+	for _, q := range cs.Queries {
+		if q.Beg < 0 || q.Beg >= q.End {
+			continue
+		}
+		want := cs.overlapping(q, run.accepted)
+		if len(want) == 0 {
+			continue
+		}
+		chunks, err, p := cs.ask(run.im, q)
+		if p || err != nil {
+			continue // already judged by the oracle above
+		}
+		got := map[string]bool{}
+		var iterr error
+		o := guardTimeout(20*time.Second, func() {
+			it, err := bam.NewIterator(br2, chunks)
+			if err != nil {
+				iterr = err
+				return
+			}
+			for it.Next() {
+				got[it.Record().Name] = true
+			}
+			iterr = it.Close()
+		})
+		r.hist("real.e2e.query")
+		if o.timedOut || o.panicked || iterr != nil {
+			one := *cs
+			one.Queries = []c04Query{q}
+			r.fail("bai.e2e.iterator-error", fmt.Sprintf("iterating the chunks of query (%d,[%d,%d)) failed: %v %v %v", q.Rid, q.Beg, q.End, o.timedOut, o.panicVal, iterr), &one)
+			continue
+		}
+		for _, i := range want {
+			if !got[fmt.Sprintf("r%d", i)] {
+				one := *cs
+				one.Queries = []c04Query{q}
+				r.fail("bai.e2e.iterator-miss", fmt.Sprintf("bam.Iterator over the chunks of query (%d,[%d,%d)) does not yield record #%d [%d,%d)", q.Rid, q.Beg, q.End, i, cs.Recs[i].Start, cs.Recs[i].End), &one)
+				break
+			}
+		}
+	}
+}
+
 // c04MemGuard aborts the process when the heap grows beyond 3 GiB (an unbounded loop in the
 // implementation must not take the machine down); the result written names the running case.
 var c04Current *c04Case
@@ -1296,7 +1439,8 @@ func checkC04(c *ctx) {
 		"sorted record sequences over 1-4 references (skipped ids, same starts, placed-unmapped, mate-unmapped, unplaced records in between/at the end) with starts at k*2^(minShift+3l)+{-2..2} " +
 		"in a small (8 finest bins) / medium (600) / full-range region and lengths to the next tile edge -1/0/+1, one tile +-1, one bin of a random level +-1; synthetic monotone chunk layouts (incl. first chunk at offset 0, gaps); " +
 		"queries: single bases at record start/end/last tile, one base before/behind, covering, neighbouring reference, plus a boundary-biased grid; strategies identity/adjacent/squash/compress(n). " +
-		"Every case is judged before write∘read, after it, and after MergeChunks. A separate unsorted/out-of-range stream is compared with the model only. " +
+		"Every case is judged before write∘read, after it, and after MergeChunks. Real layouts: bai cases are also written with bam.Writer (sequence lengths 0..30000 so that records cross BGZF blocks), read back, indexed with the reader's LastChunk values, judged the same way and end to end with bam.Iterator over the returned chunks. " +
+		"A separate unsorted/out-of-range stream is compared with the model only. " +
 		"An evaluation is one (case, phase, query) judged by the brute-force oracle; non-trivial = at least one added record overlaps the query; distinct = distinct (kind, records, query, phase)."
 	if c.replay != "" {
 		var in c04Case
@@ -1331,6 +1475,13 @@ func checkC04(c *ctx) {
 				r.sample(cs)
 			}
 		}
+	}
+	nReal := 12
+	if c.thorough() {
+		nReal = 300
+	}
+	for i := 0; i < nReal; i++ {
+		g.realBamCase(c, d, &impl)
 	}
 	for i := 0; i < nCases/3; i++ {
 		for _, k := range kinds {
